@@ -29,7 +29,9 @@ def make_classes(spec, tag):
             if j < cs['own']:
                 fields.append((f'c{c}f{j}', Any, field(default=None, kw_only=(j in cs.get('kwonly', [])))))   # keyword-only: after the positional ones in the signature
         bases = (classes[cs['parent']],) if cs['parent'] is not None else ()
-        cls = make_dataclass(f'K{tag}_{c}', fields, bases=bases, eq=False)
+        # cs['falsy']: the instances are FALSY objects (a user __bool__): a single one given as a domain is still that domain
+        cls = make_dataclass(f'K{tag}_{c}', fields, bases=bases, eq=False,
+                             namespace={'__bool__': (lambda self: False)} if cs.get('falsy') else None)
         if cs['decorated'] or cs['parent'] is None:
             cls = symbol(cls)
         classes.append(cls)
